@@ -817,4 +817,244 @@ theorem jsonDecode_toJson (o : Opts) (t : Val) (hw : wf t = true) (hd : depth t 
     simp only [hne, Bool.false_eq_true, if_false]
     rw [jsonDecode_ren hr, dec_erase _ (wf_dropEmptyIf o _ (wf_pairOrder o t hw))]
 
+/-! `pyEq` between the column-ordered tree and the tree -/
+
+theorem isEmptyContainer_list (c : Cls) (ys : List Val) : isEmptyContainer (.list c ys) = ys.isEmpty := by
+  cases ys <;> rfl
+
+theorem isEmptyContainer_dict (c : Cls) (ys : List (Str × Val)) : isEmptyContainer (.dict c ys) = ys.isEmpty := by
+  cases ys <;> rfl
+
+theorem recs_empty {cols : List (Str × Nat)} : ∀ (xs : List Val), (∀ x ∈ xs, RecOk cols x) →
+    (pruneList (xs.map (orderRec cols))).isEmpty = (pruneList xs).isEmpty
+  | [], _ => rfl
+  | x :: xs, hok => by
+    obtain ⟨c, kvs, rfl, hk⟩ := hok x (by simp)
+    obtain ⟨f1, f2, _, _⟩ := rec_facts (c := c) hk {}
+    have ih := recs_empty xs (fun y hy => hok y (by simp [hy]))
+    simp only [List.map_cons, orderRec, pruneList, f1, f2]
+    cases kvs.isEmpty <;> simp [ih]
+
+mutual
+theorem pairOrder_empty (o : Opts) : ∀ (t : Val),
+    isEmptyContainer (prune (pairOrder o t)) = isEmptyContainer (prune t)
+  | .none => rfl
+  | .bool _ => rfl
+  | .int _ => rfl
+  | .flt _ => rfl
+  | .str _ => rfl
+  | .list c xs => by
+    rcases pairSel_cases o xs with hg | ⟨c0, cols, hsel, hcols⟩
+    · rw [pairOrder_list_general hg]
+      simp only [prune, isEmptyContainer_list]
+      exact pairOrderL_empty o xs
+    · rw [pairOrder_list_pair hsel]
+      simp only [prune, isEmptyContainer_list]
+      exact recs_empty xs (pairCols_inv hcols).1
+  | .dict c kvs => by
+    simp only [pairOrder, prune, isEmptyContainer_dict]
+    exact pairOrderK_empty o kvs
+theorem pairOrderL_empty (o : Opts) : ∀ (xs : List Val),
+    (pruneList (pairOrderL o xs)).isEmpty = (pruneList xs).isEmpty
+  | [] => rfl
+  | x :: xs => by
+    simp only [pairOrderL, pruneList, pairOrder_empty o x]
+    cases isEmptyContainer (prune x) <;> simp [pairOrderL_empty o xs]
+theorem pairOrderK_empty (o : Opts) : ∀ (kvs : List (Str × Val)),
+    (pruneKvs (pairOrderK o kvs)).isEmpty = (pruneKvs kvs).isEmpty
+  | [] => rfl
+  | (k, v) :: kvs => by
+    simp only [pairOrderK, pruneKvs, pairOrder_empty o v]
+    cases isEmptyContainer (prune v) <;> simp [pairOrderK_empty o kvs]
+end
+
+theorem dropEmptyIf_list (o : Opts) (c : Cls) (xs : List Val) :
+    dropEmptyIf o (.list c xs) = .list c (dropL o xs) := by
+  unfold dropEmptyIf dropL; split <;> simp [prune]
+
+theorem dropEmptyIf_dict (o : Opts) (c : Cls) (kvs : List (Str × Val)) :
+    dropEmptyIf o (.dict c kvs) = .dict c (dropK o kvs) := by
+  unfold dropEmptyIf dropK; split <;> simp [prune]
+
+theorem scalar_pyEq_refl {v : Val} (h : isPairScalar v = true) : pyEq v v = true := by
+  cases v <;> simp [isPairScalar, presWidth, pyEq] at h ⊢
+
+theorem eraseKvs_scalars : ∀ (kvs : List (Str × Val)), (∀ p ∈ kvs, isPairScalar p.2 = true) →
+    eraseKvs kvs = kvs
+  | [], _ => rfl
+  | (k, v) :: rest, h => by
+    simp only [eraseKvs, scalar_erase (h (k, v) (by simp)),
+      eraseKvs_scalars rest (fun p hp => h p (by simp [hp]))]
+
+theorem pyEqK_colOrder (kvs : List (Str × Val)) (h : ∀ p ∈ kvs, isPairScalar p.2 = true) :
+    ∀ (cols : List (Str × Nat)), pyEqK (colOrder cols kvs) kvs = true
+  | [] => by simp [colOrder, pyEqK]
+  | (k, w) :: cols => by
+    simp only [colOrder]
+    cases hl : Val.lookup k kvs with
+    | none => exact pyEqK_colOrder kvs h cols
+    | some v =>
+      simp only [pyEqK, hl, Bool.and_eq_true]
+      exact ⟨scalar_pyEq_refl (h _ (lookup_mem kvs k v hl)), pyEqK_colOrder kvs h cols⟩
+
+/-- a record equals its column-ordered copy, as Python compares dicts -/
+theorem rec_pyEq {cols : List (Str × Nat)} (hc : (colKeys cols).Nodup) {c : Cls} {kvs : List (Str × Val)}
+    (hk : ∀ p ∈ kvs, isPairScalar p.2 = true ∧ p.1 ∈ colKeys cols) (hn : nodupKeys kvs = true) :
+    pyEq (erase (.dict c (colOrder cols kvs))) (erase (.dict c kvs)) = true := by
+  have h1 : eraseKvs kvs = kvs := eraseKvs_scalars kvs (fun p hp => (hk p hp).1)
+  have h2 : eraseKvs (colOrder cols kvs) = colOrder cols kvs :=
+    eraseKvs_scalars _ (fun p hp => (hk p (colOrder_mem cols kvs p hp)).1)
+  simp only [erase, h1, h2, pyEq, Bool.and_eq_true, beq_iff_eq]
+  exact ⟨length_colOrder hc hn (fun p hp => (hk p hp).2), pyEqK_colOrder kvs (fun p hp => (hk p hp).1) cols⟩
+
+theorem recs_pyEq (o : Opts) {cols : List (Str × Nat)} (hc : (colKeys cols).Nodup) :
+    ∀ (xs : List Val), (∀ x ∈ xs, RecOk cols x) → wfL xs = true →
+    pyEqL (eraseList (dropL o (xs.map (orderRec cols)))) (eraseList (dropL o xs)) = true
+  | [], _, _ => by
+    have : dropL o [] = [] := by unfold dropL; split <;> simp [pruneList]
+    simp [this, eraseList, pyEqL]
+  | x :: xs, hok, hw => by
+    obtain ⟨c, kvs, rfl, hk⟩ := hok x (by simp)
+    obtain ⟨f1, f2, f3, f4⟩ := rec_facts (c := c) hk o
+    simp only [wfL, wf, Bool.and_eq_true] at hw
+    have ih := recs_pyEq o hc xs (fun y hy => hok y (by simp [hy])) hw.2
+    simp only [List.map_cons, orderRec]
+    by_cases hskip : o.skipEmpty = true ∧ kvs.isEmpty = true
+    · rw [dropL_cons_drop _ hskip.1 (by rw [f1]; exact hskip.2),
+        dropL_cons_drop _ hskip.1 (by rw [f2]; exact hskip.2)]
+      exact ih
+    · rw [dropL_cons_keep _ (by rw [f1]; exact hskip), dropL_cons_keep _ (by rw [f2]; exact hskip), f3, f4]
+      simp only [eraseList, pyEqL, Bool.and_eq_true]
+      exact ⟨rec_pyEq hc hk hw.1.2, ih⟩
+
+theorem length_eraseKvs : ∀ (kvs : List (Str × Val)), (eraseKvs kvs).length = kvs.length
+  | [] => rfl
+  | (k, v) :: rest => by simp [eraseKvs, length_eraseKvs rest]
+
+theorem length_dropK_pairOrderK (o : Opts) : ∀ (kvs : List (Str × Val)),
+    (dropK o (pairOrderK o kvs)).length = (dropK o kvs).length
+  | [] => rfl
+  | (k, v) :: kvs => by
+    have ih := length_dropK_pairOrderK o kvs
+    simp only [pairOrderK]
+    by_cases hd : o.skipEmpty = true ∧ isEmptyContainer (prune v) = true
+    · rw [dropK_cons_drop _ hd.1 (by rw [pairOrder_empty]; exact hd.2), dropK_cons_drop _ hd.1 hd.2]
+      exact ih
+    · rw [dropK_cons_keep _ (by rw [pairOrder_empty]; exact hd), dropK_cons_keep _ hd]
+      simp [ih]
+
+theorem keysOf_dropK_sub (o : Opts) : ∀ (kvs : List (Str × Val)) (k : Str),
+    k ∈ keysOf (dropK o kvs) → k ∈ keysOf kvs := by
+  intro kvs k h
+  unfold dropK at h
+  split at h
+  · exact keysOf_pruneKvs_sub kvs k h
+  · exact h
+
+/-- reading a surviving entry back from the exported dict -/
+theorem lookup_dropK (o : Opts) : ∀ (kvs : List (Str × Val)), nodupKeys kvs = true →
+    ∀ (k : Str) (v : Val), (k, v) ∈ kvs → ¬ (o.skipEmpty = true ∧ isEmptyContainer (prune v) = true) →
+    Val.lookup k (eraseKvs (dropK o kvs)) = some (erase (dropEmptyIf o v))
+  | [], _, _, _, hm, _ => by cases hm
+  | (k0, v0) :: rest, hn, k, v, hm, hkeep => by
+    simp only [nodupKeys, Bool.and_eq_true, Bool.not_eq_true', List.contains_eq_mem,
+      decide_eq_false_iff_not] at hn
+    rcases List.mem_cons.1 hm with hm' | hm'
+    · cases hm'
+      rw [dropK_cons_keep _ hkeep]
+      simp [eraseKvs, Val.lookup]
+    · have hne : k ≠ k0 := by
+        intro e
+        apply hn.1
+        simp only [keysOf, List.mem_map]
+        exact ⟨(k, v), hm', e⟩
+      have ih := lookup_dropK o rest hn.2 k v hm' hkeep
+      by_cases hd : o.skipEmpty = true ∧ isEmptyContainer (prune v0) = true
+      · rw [dropK_cons_drop _ hd.1 hd.2]; exact ih
+      · rw [dropK_cons_keep _ hd]
+        simp only [eraseKvs, Val.lookup, hne, if_false]
+        exact ih
+
+mutual
+/-- the column-ordered tree equals the tree as Python compares values, also after
+`skip_empty_arrays` has dropped the empty containers of both -/
+theorem pairOrder_pyEq (o : Opts) : ∀ (t : Val), wf t = true →
+    pyEq (erase (dropEmptyIf o (pairOrder o t))) (erase (dropEmptyIf o t)) = true
+  | .none, _ => by unfold dropEmptyIf; split <;> simp [pairOrder, prune, erase, pyEq]
+  | .bool _, _ => by unfold dropEmptyIf; split <;> simp [pairOrder, prune, erase, pyEq]
+  | .int _, _ => by unfold dropEmptyIf; split <;> simp [pairOrder, prune, erase, pyEq]
+  | .flt _, _ => by unfold dropEmptyIf; split <;> simp [pairOrder, prune, erase, pyEq]
+  | .str _, _ => by unfold dropEmptyIf; split <;> simp [pairOrder, prune, erase, pyEq]
+  | .list c xs, h => by
+    simp only [wf] at h
+    rcases pairSel_cases o xs with hg | ⟨c0, cols, hsel, hcols⟩
+    · rw [pairOrder_list_general hg, dropEmptyIf_list, dropEmptyIf_list]
+      simp only [erase, pyEq]
+      exact pairOrderL_pyEq o xs h
+    · rw [pairOrder_list_pair hsel, dropEmptyIf_list, dropEmptyIf_list]
+      simp only [erase, pyEq]
+      exact recs_pyEq o (pairCols_inv hcols).2 xs (pairCols_inv hcols).1 h
+  | .dict c kvs, h => by
+    simp only [wf, Bool.and_eq_true] at h
+    simp only [pairOrder]
+    rw [dropEmptyIf_dict, dropEmptyIf_dict]
+    simp only [erase, pyEq, Bool.and_eq_true, beq_iff_eq]
+    refine ⟨by rw [length_eraseKvs, length_eraseKvs, length_dropK_pairOrderK], ?_⟩
+    exact pairOrderK_pyEq o kvs h.1 _ (fun k v hm hkeep => lookup_dropK o kvs h.2 k v hm hkeep)
+theorem pairOrderL_pyEq (o : Opts) : ∀ (xs : List Val), wfL xs = true →
+    pyEqL (eraseList (dropL o (pairOrderL o xs))) (eraseList (dropL o xs)) = true
+  | [], _ => by
+    have : dropL o [] = [] := by unfold dropL; split <;> simp [pruneList]
+    simp [pairOrderL, this, eraseList, pyEqL]
+  | x :: xs, h => by
+    simp only [wfL, Bool.and_eq_true] at h
+    simp only [pairOrderL]
+    by_cases hd : o.skipEmpty = true ∧ isEmptyContainer (prune x) = true
+    · rw [dropL_cons_drop _ hd.1 (by rw [pairOrder_empty]; exact hd.2), dropL_cons_drop _ hd.1 hd.2]
+      exact pairOrderL_pyEq o xs h.2
+    · rw [dropL_cons_keep _ (by rw [pairOrder_empty]; exact hd), dropL_cons_keep _ hd]
+      simp only [eraseList, pyEqL, Bool.and_eq_true]
+      exact ⟨pairOrder_pyEq o x h.1, pairOrderL_pyEq o xs h.2⟩
+theorem pairOrderK_pyEq (o : Opts) : ∀ (kvs : List (Str × Val)), wfK kvs = true →
+    ∀ (B : List (Str × Val)),
+    (∀ k v, (k, v) ∈ kvs → ¬ (o.skipEmpty = true ∧ isEmptyContainer (prune v) = true) →
+      Val.lookup k B = some (erase (dropEmptyIf o v))) →
+    pyEqK (eraseKvs (dropK o (pairOrderK o kvs))) B = true
+  | [], _, B, _ => by
+    have : dropK o [] = [] := by unfold dropK; split <;> simp [pruneKvs]
+    simp [pairOrderK, this, eraseKvs, pyEqK]
+  | (k, v) :: kvs, h, B, hB => by
+    simp only [wfK, Bool.and_eq_true] at h
+    simp only [pairOrderK]
+    have ih := pairOrderK_pyEq o kvs h.2 B (fun k' v' hm hk => hB k' v' (by simp [hm]) hk)
+    by_cases hd : o.skipEmpty = true ∧ isEmptyContainer (prune v) = true
+    · rw [dropK_cons_drop _ hd.1 (by rw [pairOrder_empty]; exact hd.2)]
+      exact ih
+    · rw [dropK_cons_keep _ (by rw [pairOrder_empty]; exact hd)]
+      simp only [eraseKvs, pyEqK, hB k v (by simp) hd, Bool.and_eq_true]
+      exact ⟨pairOrder_pyEq o v h.1, ih⟩
+end
+
+mutual
+theorem pairOrder_off_aux (o : Opts) (key : ∀ xs, pairSel o xs = Option.none) : ∀ (t : Val), pairOrder o t = t
+  | .none => rfl
+  | .bool _ => rfl
+  | .int _ => rfl
+  | .flt _ => rfl
+  | .str _ => rfl
+  | .list c xs => by rw [pairOrder_list_general (Or.inl (key xs)), pairOrderL_off o key xs]
+  | .dict c kvs => by simp only [pairOrder, pairOrderK_off o key kvs]
+theorem pairOrderL_off (o : Opts) (key : ∀ xs, pairSel o xs = Option.none) : ∀ (xs : List Val), pairOrderL o xs = xs
+  | [] => rfl
+  | x :: xs => by simp only [pairOrderL, pairOrder_off_aux o key x, pairOrderL_off o key xs]
+theorem pairOrderK_off (o : Opts) (key : ∀ xs, pairSel o xs = Option.none) :
+    ∀ (kvs : List (Str × Val)), pairOrderK o kvs = kvs
+  | [] => rfl
+  | (k, v) :: kvs => by simp only [pairOrderK, pairOrder_off_aux o key v, pairOrderK_off o key kvs]
+end
+
+/-- without the pair layout nothing is re-listed -/
+theorem pairOrder_off {o : Opts} (hp : o.pairsOn = false) (t : Val) : pairOrder o t = t :=
+  pairOrder_off_aux o (by intro xs; simp [pairSel, hp]) t
+
 end N0.Json
